@@ -13,7 +13,9 @@ RULE = (
     "set of import events (builtins family exempt) and the multiset of call events (canonical callee, "
     "args, kwargs) logged by CPython's pure-Python unpickler over inert stubs must be included in "
     "the multiset logged when the decompiled source is executed over the same stubs; a decompile "
-    "that does not compile/run is a violation; refusing with an error is allowed. Stacks of 2-4 such "
+    "that does not compile/run is a violation; refusing with an error is allowed. The decompile is "
+    "also taken from an object that has been analysed first and from Trace.run(); where that text "
+    "differs it is judged as well. Stacks of 2-4 such "
     "pickles, some starting with an opcode fickling does not model: the stack is refused with an "
     "error or has every member, each decompiling as it does alone. Non-trivial = "
     "program performs >= 1 call whose result is not simply the value at STOP (popped, below the "
@@ -53,7 +55,7 @@ def judge(data, prog=None):
             Failure(
                 case,
                 f"hidden execution in {data!r}: the VM performs {ev!r} {want}x but the decompile "
-                f"only {got}x",
+                f"{('(' + o.via + ') ') if o.via else ''}only {got}x",
                 {"source": o.dec.src, "missing": repr(lack)[:2000]},
             ),
             "ran",
